@@ -108,6 +108,16 @@ func NewModel(w *World) *Model {
 	return m
 }
 
+// SetDenied records that the permission handler refuses (or admits again) peerIP from now on.
+func (m *Model) SetDenied(peerIP net.IP, denied bool) {
+	m.W.SetLateDeny(peerIP, denied)
+	if denied {
+		m.deny[peerIP.String()] = true
+	} else {
+		delete(m.deny, peerIP.String())
+	}
+}
+
 // Denied reports whether the permission handler refuses peerIP for client c.
 func (m *Model) Denied(c *RawClient, peerIP net.IP) bool {
 	if m.deny[peerIP.String()] {
